@@ -42,7 +42,7 @@ def main():
         engines=P.ENGINES,
         checks=checks,
         not_applicable=sorted(na, key=lambda d: d['property_id']),
-        notes='Contract-based deductive verification (Verus on text extracted mechanically from /repo on every run) with Kani/CBMC as the '
+        notes='Contract-based deductive verification (Verus on text extracted mechanically from /repo on every run: the runtime crate, the byte-class algebra and - unit V-lex - the lexers logos_codegen::generate emits for a corpus of definitions) with Kani/CBMC as the '
               'memory-model back end and as the labelled bounded stand-in; see DESIGN.md. exit 2 = undecided (never an alarm).',
     )
     with open(os.path.join(ROOT, 'MANIFEST.json'), 'w') as f:
